@@ -6,7 +6,9 @@ import (
 	"os"
 	"path/filepath"
 	"sort"
+	"strconv"
 	"strings"
+	"verif/internal/names"
 
 	"pgregory.net/rapid"
 	"verif/internal/crash"
@@ -66,9 +68,9 @@ func hasRecoveryWork(fs *fsmodel.FS) (bool, string) {
 	for _, l := range fs.Listing() {
 		f := strings.Fields(l)
 		switch {
-		case strings.HasPrefix(f[0], "sstable_compaction"):
+		case names.IsCompactionDir(f[0]):
 			compaction = true
-		case strings.HasPrefix(f[0], "wal/") && len(f) == 2:
+		case names.IsWal(f[0]) && f[0] != names.WalDir && !strings.HasSuffix(f[0], "/") && len(f) == 2:
 			walFiles++
 			if f[1] != "8" && f[1] != "0" {
 				walRecs = true
@@ -193,23 +195,46 @@ func (n *nester) nest(imgDir string, depth int, origin string, want map[string][
 	// pass 1: the sequence of tree-changing events, to find runs of sibling unlinks (one os.RemoveAll emptying a directory)
 	type change struct{ op, path, dirfd string }
 	var changes []change
-	if _, werr := tr.Walk(preload, tr.Root, -1, func(b *crash.Boundary, fs *fsmodel.FS) error {
+	// listed: descriptors whose directory entries the process has read (getdents64) since they were opened - the
+	// signature of os.RemoveAll, which unlinks the names it has just listed relative to the descriptor it listed
+	listed := map[string]bool{}
+	tr.OnEvent = func(_ fsmodel.Applied, ev fsmodel.Event, _ *crash.OpState) {
+		if ev.Fail || ev.Unknown {
+			return
+		}
+		switch ev.Name {
+		case "getdents64":
+			if len(ev.Args) > 0 && ev.Ret > 0 {
+				listed[strings.TrimSpace(ev.Args[0])] = true
+			}
+		case "close":
+			if len(ev.Args) > 0 {
+				delete(listed, strings.TrimSpace(ev.Args[0]))
+			}
+		case "openat", "open", "creat", "dup", "dup2", "dup3":
+			delete(listed, strconv.FormatInt(ev.Ret, 10))
+		}
+	}
+	_, werr := tr.Walk(preload, tr.Root, -1, func(b *crash.Boundary, fs *fsmodel.FS) error {
 		if b.Last.Changed {
 			dirfd := ""
-			if b.LastEv.Name == "unlinkat" && len(b.LastEv.Args) > 0 {
-				dirfd = b.LastEv.Args[0]
+			if b.LastEv.Name == "unlinkat" && len(b.LastEv.Args) > 0 && listed[strings.TrimSpace(b.LastEv.Args[0])] {
+				dirfd = strings.TrimSpace(b.LastEv.Args[0])
 			}
 			changes = append(changes, change{b.Last.Op, b.Last.Path, dirfd})
 		}
 		return nil
-	}); werr != nil {
+	})
+	tr.OnEvent = nil
+	if werr != nil {
 		n.x.Label("nested-emulator-self-check-failed")
 		return
 	}
 	runs := map[int][]string{} // index of the first change of a run -> entries
 	for i := 0; i < len(changes); {
-		// only unlinks that one os.RemoveAll issues relative to the directory it is listing (numeric dirfd) can come in
-		// another order; an explicit os.Remove of a path (AT_FDCWD) is ordered by the program
+		// only unlinks that one os.RemoveAll issues relative to the directory descriptor it has listed can come in another
+		// order; an os.Remove of a path (AT_FDCWD), or an unlink relative to a descriptor that was never listed (os.Root),
+		// is ordered by the program
 		if changes[i].op != "unlink" || changes[i].dirfd == "" || changes[i].dirfd == "AT_FDCWD" {
 			i++
 			continue
@@ -265,15 +290,15 @@ func (n *nester) nest(imgDir string, depth int, origin string, want map[string][
 		}
 		win := "other"
 		switch {
-		case strings.Contains(b.Last.Path, "sstable_compaction") || b.Last.Op == "rename":
+		case names.IsCompactionDir(b.Last.Path) || b.Last.Op == "rename":
 			win = "repair-compactions"
-		case strings.HasPrefix(b.Last.Path, "wal") && (b.Last.Op == "unlink" || b.Last.Op == "rmdir"):
+		case names.IsWal(b.Last.Path) && (b.Last.Op == "unlink" || b.Last.Op == "rmdir"):
 			win = "wal-removal"
-		case strings.HasPrefix(b.Last.Path, "sstable_") && (b.Last.Op == "unlink" || b.Last.Op == "rmdir"):
+		case names.IsTable(b.Last.Path) && (b.Last.Op == "unlink" || b.Last.Op == "rmdir"):
 			win = "table-removal"
-		case strings.HasPrefix(b.Last.Path, "sstable_"):
+		case names.IsTable(b.Last.Path):
 			win = "replay-flush"
-		case strings.HasPrefix(b.Last.Path, "wal"):
+		case names.IsWal(b.Last.Path):
 			win = "wal-setup"
 		}
 		n.x.Sub(fmt.Sprintf("%s/d%d/b%d", origin, depth, b.Seq), true)
